@@ -71,7 +71,29 @@ def prop_iban_nc(case, res):
         res.violation('iban(check_country=False)|canonical-differs', 'iban_nc', case, {'x': x, 'lib': o[1], 'ref': r[1]})
 
 
-SUBS = {'c07': prop, 'iban_nc': prop_iban_nc}
+def prop_isbn_convert(case, res):
+    """ISBN with the documented convert=True option: same accept set, ISBN-13 canonical form."""
+    m = core.mod('isbn')
+    x = core.dec(case['x'])
+    res.evals += 1
+    o = core.out(m.validate, x, convert=True)
+    r = intl.ref_isbn(x)
+    if o[0] == 'EXC':
+        return
+    if r[0] == 'ok' and len(r[1]) == 10:
+        body = '978' + r[1][:9]
+        t = sum((3 if i % 2 else 1) * int(c) for i, c in enumerate(body))
+        r = ('ok', body + str((10 - t) % 10))
+    if o[0] == 'ok' or r[0] == 'ok':
+        res.nt('isbn-convert', x)
+    if (o[0] == 'ok') != (r[0] == 'ok'):
+        res.violation('isbn(convert=True)|%s|ref:%s' % ('lib-accepts' if o[0] == 'ok' else 'lib-rejects:' + o[1], r[1] if r[0] != 'ok' else 'accepts'),
+                      'isbn_convert', case, {'x': x, 'lib': [str(t) for t in o], 'ref': list(r)})
+    elif o[0] == 'ok' and o[1] != r[1]:
+        res.violation('isbn(convert=True)|canonical-differs', 'isbn_convert', case, {'x': x, 'lib': o[1], 'ref': r[1]})
+
+
+SUBS = {'c07': prop, 'iban_nc': prop_iban_nc, 'isbn_convert': prop_isbn_convert}
 
 FOREIGN = ['٣', '५', '０', '²', '①', 'Ⅷ', '\n', '\t', ' ', 'ı', 'ß', 'Ｘ', 'х', 'Х']
 
@@ -195,6 +217,11 @@ def shard(a):
     res = core.Result()
     name = a['mod']
     core.drive(prop, strategy(name, 0), a['n'], (a['seed'], 'C07', name, a['i']), res, shrink_skip=a['known'])
+    if name == 'isbn':
+        v = gen.valid_numbers('isbn')
+        strat = st.builds(lambda x: {'x': core.enc(x)}, st.one_of(v, neighbours('isbn', v), neighbours('isbn', st.sampled_from(gen.seeds('isbn'))),
+                                                               gen.decorations('isbn', v)))
+        core.drive(prop_isbn_convert, strat, a['n'], (a['seed'], 'C07', 'isbn_convert', a['i']), res, shrink_skip=a['known'])
     if name == 'iban':
         strat = st.builds(lambda x: {'x': core.enc(x)}, st.one_of(constructed_iban(), neighbours('iban', constructed_iban()),
                                                                gen.valid_numbers('iban'), neighbours('iban', gen.valid_numbers('iban'))))
